@@ -271,7 +271,67 @@ def exec_gradient(case):
     return out
 
 
+ANGLES = [0, 10, 30, 45, -30, -60, 90, 180, 270]
+SKEWS = [0, 10, 30, -30, 60, -45]
+CENTRES = [(0, 0), (100, 50), (-20, 300)]
+
+
+def paint_cases():
+    """one case per transform-paint class x field values: the classes a font read with Paint.from_ot may hold, including the ones
+    nanoemoji never emits itself (rotate, skew)"""
+    out = []
+    for c in CENTRES:
+        ac = "" if c == (0, 0) else "AroundCenter"
+        ck = {} if c == (0, 0) else {"center": list(c)}
+        for a in ANGLES:
+            out.append({"kind": "paint", "cls": "PaintRotate" + ac, "args": dict(ck, angle=a)})
+        for x in SKEWS:
+            for y in SKEWS:
+                out.append({"kind": "paint", "cls": "PaintSkew" + ac, "args": dict(ck, xSkewAngle=x, ySkewAngle=y)})
+        for sx in (1, 0.5, -1, 1.75):
+            for sy in (1, 0.5, -1.25):
+                out.append({"kind": "paint", "cls": "PaintScale" + ac, "args": dict(ck, scaleX=sx, scaleY=sy)})
+            out.append({"kind": "paint", "cls": "PaintScaleUniform" + ac, "args": dict(ck, scale=sx)})
+    for dx in (0, 7, -300):
+        for dy in (0, 11, 250):
+            out.append({"kind": "paint", "cls": "PaintTranslate", "args": {"dx": dx, "dy": dy}})
+    for m in ((1, 0.25, -0.5, 1, 10, -20), (0, 1, -1, 0, 0, 100), (0.5, 0, 0.75, -1, -30, 40)):
+        out.append({"kind": "paint", "cls": "PaintTransform", "args": {"transform": list(m)}})
+    return out
+
+
+def exec_paint(case):
+    """a transform paint constructed directly: gettransform() must be the affine the OpenType spec assigns to its fields, before
+    and after a trip through the binary (the oracle's own formulas in both places)"""
+    from nanoemoji import paint as P
+    from nanoemoji.colors import Color
+    from vmc.drive import inproc
+
+    inproc.init()
+    args = {k: (tuple(v) if isinstance(v, list) else v) for k, v in case["args"].items()}
+    leaf = P.PaintGlyph(glyph="sq", paint=P.PaintSolid(Color.fromstring("red")))
+    p = getattr(P, case["cls"])(paint=leaf, **args)
+    want, _, _ = oracle_matrix(p)
+    got = tuple(p.gettransform())
+    for i in range(6):
+        if abs(got[i] - want[i]) > 1e-6 * (1 + abs(want[i])):
+            return [bad("C16.paint-denotes", f"{case['cls']}({args}).gettransform() = {tuple(round(v, 6) for v in got)}, the spec gives {tuple(round(v, 6) for v in want)}")]
+    font = _font_for(p.to_ufo_paint([Color.fromstring("red")]))
+    B, _ = binary_matrix(font)
+    from vmc.oracles.colr_eval import ColrPicture
+
+    R = tuple(_own_transform(P, ColrPicture(font).base_paint("g")))
+    for i in range(6):
+        if abs(B[i] - want[i]) > 2 ** -13 * (1 + abs(want[i])) + (0 if i < 4 else 2 ** -13 * 300):
+            return [bad("C16.paint-roundtrip", f"{case['cls']}({args}): the binary denotes {tuple(round(v, 6) for v in B)}, the fields {tuple(round(v, 6) for v in want)}")]
+        if abs(R[i] - B[i]) > 1e-6 * (1 + abs(B[i])):
+            return [bad("C16.read-back", f"{case['cls']}({args}): the binary denotes {tuple(round(v, 6) for v in B)}, Paint.from_ot reads it as {tuple(round(v, 6) for v in R)}")]
+    return [ok("C16.paint-denotes", case["cls"])]
+
+
 def execute(case):
+    if case.get("kind") == "paint":
+        return exec_paint(case)
     if case.get("_") == "font" or "kind" not in case:  # a state of the font-level lattice (replay)
         return font_level(case)
     if case["kind"] == "matrix":
@@ -307,6 +367,8 @@ def run(report, tier, only=None):
     if only in (None, "gradient"):
         cases = [{"kind": "gradient", "g": gi, "A": list(A)} for gi in range(len(gradient_geometries())) for A in GRAD_AFFINES]
         listing.run(report, cases, execute, timeout=120)
+    if only in (None, "paints"):
+        listing.run(report, paint_cases(), execute, timeout=120)
     if only in (None, "font"):
         # font level: the transforms nanoemoji itself puts into a paint tree when it reuses shapes (placing transform on the outline,
         # compensating transform on the gradient, split into uniform part + residual, the wrap-instead-of-bake route when the baked
@@ -325,6 +387,8 @@ def run(report, tier, only=None):
         "(oracle's own formulas) must equal the input, and compiled+decompiled by fontTools it must raise or equal the input within fixed-point "
         "precision; (iii) 8 gradient geometries x ~390 affines through apply_transform / _decompose_uniform_transform, colours compared at 25 "
         "corresponding points; (iv) font level: E1 over placement x paint of the copy x user transform x gradient transforms x units (<=2 deviations quick, <=3 thorough), "
-        "real builds whose COLRv1 picture must equal the source (the transforms nanoemoji emits when it reuses shapes); distinct = emitted paint format (+ raises)"
+        "real builds whose COLRv1 picture must equal the source (the transforms nanoemoji emits when it reuses shapes); (v) every transform-paint "
+        "class (translate, scale, rotate, skew, their uniform / around-centre variants, general matrix) x a small alphabet of field values, constructed "
+        "directly: gettransform() against the spec's formula for the fields, then compiled, decompiled and read back; distinct = emitted paint format (+ raises)"
     )
     report.assumptions += ["fontTools raises on out-of-range Fixed/F2Dot14/FWORD fields (measured), so a silent wrap can only come from nanoemoji's own choice of encoding"]
